@@ -100,6 +100,29 @@ def strict_parse(lines):
     return dirs, bad
 
 
+_TCHAR = set("!#$%&'*+-.^_`|~0123456789abcdefghijklmnopqrstuvwxyzABCDEFGHIJKLMNOPQRSTUVWXYZ")
+
+
+def invalid_first_char(lines):
+    """A list element (split at commas outside quoted strings) whose FIRST character cannot start a token."""
+    s = ",".join(lines)
+    elems, cur, inq = [], [], False
+    for ch in s:
+        if ch == '"':
+            inq = not inq
+        if ch == "," and not inq:
+            elems.append("".join(cur))
+            cur = []
+        else:
+            cur.append(ch)
+    elems.append("".join(cur))
+    for e in elems:
+        e = e.strip(" \t")
+        if e and e[0] not in _TCHAR:
+            return e[0]
+    return None
+
+
 def denote(dirs, bad, dttl):
     """(may store, max ttl) — python mirror of CacheControl!MayStore only for coverage statistics."""
     names = [d["d"] for d in dirs]
@@ -176,6 +199,8 @@ def detail_key(rule, ev, rows, idx, case):
         ld = load_of(ev.get("t")) or {}
         if rule == "StoredFromCleanSuccess":
             return "%s:status=%s,clean=%s" % (rule, ld.get("status"), ld.get("clean"))
+        if rule == "StoredOnlyIfAllowed" and invalid_first_char(ld.get("hdr", [])):
+            return "%s:invalid-first-token-char:%s" % (rule, " | ".join(ld.get("hdr", [])))
         if rule in ("StoredOnlyIfAllowed", "TTLWithinLifetime"):
             ttl = sorted({it["ttl"] for it in ev.get("items", [])})
             return "%s:hdr=%s%s" % (rule, " | ".join(ld.get("hdr", [])), (",ttl=%s" % ttl) if rule == "TTLWithinLifetime" else "")
